@@ -2,6 +2,7 @@ import HpxVerif.Model.Layer
 import HpxVerif.Lemmas.RingBij5
 import HpxVerif.Lemmas.RingBij6
 import HpxVerif.Lemmas.LayerBmi
+import HpxVerif.Lemmas.RingCenter
 import Mathlib.Tactic.Ring
 import Mathlib.Tactic.Linarith
 
@@ -20,8 +21,9 @@ Proved so far:
 **For every depth** (second half of this file): `to_ring_bijective` (valid parts ↔ `[0, 12·4^d)`), `from_ring_inverse`,
 `ring_order` (RING numbers follow decreasing latitude then increasing longitude of the centres), and on cell numbers
 `ring_bijection` for depths ≤ 29, LUT and BMI2 builds, under the hypothesis that the `f64` square-root estimate is within
-4 of the exact ring index (the correction loops do the rest).  Open: `ring_center_agrees` (RING-scheme centre = NESTED
-centre for `nside = 2^d`), the square-root hypothesis itself.
+4 of the exact ring index (the correction loops do the rest).  **`ring_center_agrees`, `ring_scheme_same_cells`**: over ℝ the
+RING-scheme centre, vertices and offset positions of cell `r` are those of the NESTED cell `from_ring(r)`.  Open: the
+square-root hypothesis itself.
 -/
 
 namespace Hpx.C10
@@ -160,5 +162,60 @@ theorem from_ring_truncates_at_depth_33 :
 
 /-- non-vacuity of the square-root hypothesis at small arguments, and of the bijection -/
 example : ApproxOK (firstHashInEqr 3) := approxOK_depth3
+
+/-! ## both schemes describe the same cells (`nside = 2^depth`) -/
+
+section SameCells
+open Hpx Hpx.Layer Hpx.RingCenter
+
+/-- **`ring_center_agrees`**: LUT build, depth `d ≤ 29`, `nside = 2^d`.  For every RING number `r < 12·4^d`, the
+    RING-scheme centre of `r` is the NESTED centre of `from_ring(r)`: both schemes describe the same cells.
+    Hypothesis: the `f64` estimate of the polar ring index is within 4 of the truth below the first equatorial
+    cell number (`RingBij.ApproxOK`, the hypothesis of the NESTED <-> RING bijection). -/
+theorem ring_center_agrees (debug : Bool) (cfg : Cfg) (hb : cfg.bmi = false) (d : Nat) (hd : d ≤ 29)
+    (hA : RingBij.ApproxOK (firstHashInEqr d)) (r : Nat) (hr : r < 12 * 4 ^ d) (h : Nat)
+    (hf : fromRing cfg d r = some h) :
+    Ring.centerOfProjectedCell (α := ℝ) debug (2 ^ d) r = Hash.centerOfProjectedCell (α := ℝ) cfg d h :=
+  Hpx.RingCenter.ring_center_agrees debug cfg hb d hd hA r hr h hf
+
+/-- the centres on the sphere agree as well: `Ring.center` and `Hash.center` apply the same `unproj` to the same
+    plane point -/
+theorem ring_center_sphere_agrees (debug : Bool) (cfg : Cfg) (hb : cfg.bmi = false) (d : Nat) (hd : d ≤ 29)
+    (hA : RingBij.ApproxOK (firstHashInEqr d)) (r : Nat) (hr : r < 12 * 4 ^ d) (h : Nat)
+    (hf : fromRing cfg d r = some h) :
+    Ring.center (α := ℝ) debug (2 ^ d) r = Hash.center (α := ℝ) cfg d h :=
+  Hpx.RingCenter.ring_center_sphere_agrees debug cfg hb d hd hA r hr h hf
+
+/-- **C10, last clause, all depths at once**, under the single hypothesis "the `f64` estimate of the ring index is
+    within 4 of the truth below `2^60`": for every depth `d ≤ 29`, every RING number `r < 12·4^d`, `from_ring(r)` is a
+    NESTED cell `h < 12·4^d` whose centre (plane and sphere) is the RING-scheme centre of `r`; and for every NESTED
+    cell `h`, `to_ring(h)` is a RING cell with the same centre. -/
+theorem ring_scheme_same_cells (debug : Bool) (cfg : Cfg) (hb : cfg.bmi = false) (hA : RingBij.ApproxOK (2 ^ 60))
+    (d : Nat) (hd : d ≤ 29) :
+    (∀ r, r < 12 * 4 ^ d → ∃ h, fromRing cfg d r = some h ∧ h < 12 * 4 ^ d ∧
+      Ring.centerOfProjectedCell (α := ℝ) debug (2 ^ d) r = Hash.centerOfProjectedCell (α := ℝ) cfg d h ∧
+      Ring.center (α := ℝ) debug (2 ^ d) r = Hash.center (α := ℝ) cfg d h) ∧
+    (∀ h, h < 12 * 4 ^ d → ∃ r, toRing cfg d h = some r ∧ r < 12 * 4 ^ d ∧
+      Ring.centerOfProjectedCell (α := ℝ) debug (2 ^ d) r = Hash.centerOfProjectedCell (α := ℝ) cfg d h ∧
+      Ring.center (α := ℝ) debug (2 ^ d) r = Hash.center (α := ℝ) cfg d h) :=
+  Hpx.RingCenter.ring_scheme_same_cells debug cfg hb hA d hd
+
+/-- the four vertices agree too (same centre, same half-diagonal `1/nside`, same `unproj` calls): the RING cell `r` and
+    the NESTED cell `from_ring(r)` are the same diamond of the projection plane -/
+theorem ring_vertices_agree (debug : Bool) (cfg : Cfg) (hb : cfg.bmi = false) (d : Nat) (hd : d ≤ 29)
+    (hA : RingBij.ApproxOK (firstHashInEqr d)) (r : Nat) (hr : r < 12 * 4 ^ d) (h : Nat)
+    (hf : fromRing cfg d r = some h) :
+    Ring.vertices (α := ℝ) debug (2 ^ d) r = Hash.vertices (α := ℝ) cfg d h :=
+  Hpx.RingCenter.ring_vertices_agree debug cfg hb d hd hA r hr h hf
+
+/-- … and so does every point `(dx, dy)` inside the cell (`sph_coo`) -/
+theorem ring_sphCoo_agree (debug : Bool) (cfg : Cfg) (hb : cfg.bmi = false) (d : Nat) (hd : d ≤ 29)
+    (hA : RingBij.ApproxOK (firstHashInEqr d)) (r : Nat) (hr : r < 12 * 4 ^ d) (h : Nat)
+    (hf : fromRing cfg d r = some h) (dx dy : ℝ) :
+    Ring.sphCoo (α := ℝ) debug (2 ^ d) r dx dy = Hash.sphCoo (α := ℝ) cfg d h dx dy :=
+  Hpx.RingCenter.ring_sphCoo_agree debug cfg hb d hd hA r hr h hf dx dy
+
+
+end SameCells
 
 end Hpx.C10
